@@ -158,18 +158,18 @@ def gen_cases(rng, tier):
         # every message type through the three operations, API-built
         for mt in types * k:
             three(gen.message(mt), "api-type")
-        for _ in range(70 * k):
+        for _ in range(120 * k):
             three(gen.message(), "api-random")
-        for _ in range(25 * k):
+        for _ in range(40 * k):
             three(rich.message(rng.choice(grouped), max_wire=5000), "api-rich-groups")
         # decoded sources: schema order (arrival order = schema order) and shuffled order
         for mt in types * k:
             msg = gen.message(mt)
             three_dec(wire_of(meta, msg), "dec-inorder")
-        for _ in range(40 * k):
+        for _ in range(70 * k):
             msg = gen.message(rng.choice(grouped))
             three_dec(wire_of(meta, msg), "dec-inorder")
-        for _ in range(60 * k):
+        for _ in range(110 * k):
             msg = (gen if rng.random() < 0.6 else flat).message()
             three_dec(wire_of(meta, msg, rng), "dec-shuffled")
         # unpositioned fields (getPos() = 0 for both): equal _pos keys, insertion order decides
@@ -189,7 +189,7 @@ def gen_cases(rng, tier):
             for gf in meta.groups[mt]:
                 zc.append((mt, gf))
         rng.shuffle(zc)
-        for mt, gf in zc[:(10 * k)]:
+        for mt, gf in zc[:(15 * k)]:
             m2, h, b, t = flat.message(mt)
             b = [f for f in b if f.fnum != gf] + [G.Fld(gf, b"0", [])]
             three((mt, h, b, t), "zero-count-api")
